@@ -16,10 +16,10 @@ import (
 	"strconv"
 	"strings"
 	"sync/atomic"
+	"syscall"
 	"testing"
 	"time"
 )
-
 
 type PropDef struct {
 	ID   string
@@ -28,7 +28,11 @@ type PropDef struct {
 	Gen func(r *Rng, tier string, idx int) *Plan
 	Run func(t *testing.T, p *Plan) *Outcome
 	// Components: which parts ran real code and which ran a stub (for the evidence file)
-	Real, Stub []string
+	// FlakySig: signature given to a violation that does not reproduce when the same plan is re-run
+	// (for the replay-based properties that means a command whose effect is not a function of the log);
+	// empty = such runs are counted as inconclusive and never reported.
+	FlakySig    string
+	Real, Stub  []string
 	Assumptions []string
 }
 
@@ -114,6 +118,11 @@ func watchdog() {
 }
 
 func TestMain(m *testing.M) {
+	var rl syscall.Rlimit
+	if err := syscall.Getrlimit(syscall.RLIMIT_NOFILE, &rl); err == nil && rl.Cur < rl.Max {
+		rl.Cur = rl.Max
+		_ = syscall.Setrlimit(syscall.RLIMIT_NOFILE, &rl)
+	}
 	log.SetOutput(io.Discard)
 	initBaseConfig()
 	loadFindings()
@@ -144,6 +153,7 @@ type WorkerResult struct {
 	Probes      map[string]int    `json:"probes"`
 	Sites       map[string]int    `json:"sites"`
 	KnownHits   map[string]int    `json:"known_hits"`
+	Unstable    map[string]int    `json:"unstable"`
 	Skipped     int               `json:"skipped"`
 	Inconcl     int               `json:"inconclusive"`
 	Violations  []ViolationRec    `json:"violations"`
@@ -232,7 +242,7 @@ func workerMain(t *testing.T, def *PropDef, out string) {
 	curFile := out + ".current"
 	start := time.Now()
 	res := &WorkerResult{Prop: def.ID, Worker: worker, Faults: map[string]int{}, Probes: map[string]int{}, Sites: map[string]int{},
-		KnownHits: map[string]int{}, Profiles: map[string]int{}}
+		KnownHits: map[string]int{}, Profiles: map[string]int{}, Unstable: map[string]int{}}
 	distinct := map[uint64]bool{}
 	states := map[uint64]bool{}
 	seenViol := map[string]bool{}
@@ -298,6 +308,24 @@ func workerMain(t *testing.T, def *PropDef, out string) {
 			sm := map[string]any{"seed": seed, "profile": p.Profile, "knobs": p.Knobs, "sknobs": p.SKnobs, "init": opsStrings(p.Init), "ops": opsStrings(p.Ops), "outcome": o.Sample}
 			b, _ := json.Marshal(sm)
 			res.Samples = append(res.Samples, b)
+		}
+		if o.Sig != "" && !openSigs[o.Sig] {
+			// a violation is reported only if the same plan fails the same way again (exact replay)
+			stable := true
+			for k := 0; k < 3 && stable; k++ {
+				if o2 := runPlan(t, def, p); o2.Sig != o.Sig {
+					stable = false
+				}
+			}
+			if !stable {
+				res.Unstable[o.Sig]++
+				if def.FlakySig != "" {
+					o.Sig = def.FlakySig
+				} else {
+					res.Inconcl++
+					o.Sig = ""
+				}
+			}
 		}
 		if o.Sig != "" {
 			if openSigs[o.Sig] {
